@@ -1,6 +1,7 @@
 import MidnightZK.Model.Common
 import MidnightZK.Model.C06.Edwards
 import MidnightZK.Model.C06.Weierstrass
+import MidnightZK.Model.C06.Fingerprint
 import MidnightZK.Gen.C06Gates
 /-! Line-protocol handler of property C06.
 
@@ -299,6 +300,10 @@ def answerShape (E : WCurve) (ws : List String) : String :=
 
 def answer (line : String) : String :=
   match words line with
+  | [chip, "fingerprint", op, pattern] =>
+    match fingerprint chip op pattern with
+    | some s => s
+    | none => "bad-op"
   | "jub" :: ws => answerJub ws
   | "secp" :: "acts" :: ws => answerActs secp ws
   | "bls" :: "acts" :: ws => answerActs bls ws
